@@ -332,6 +332,150 @@ def check_codecs(rep):
     FuncVC(rep, 'C09', S.Memory.__getitem__, 'skoolkit.snapshot.Memory.__getitem__/__setitem__[128K]', Engine(inline_ok=inline_skoolkit)).run(start_get, post_get, None)
 
 
+def check_memory_slices(rep):
+    """The slice branches of snapshot.Memory (used by move and by un-prefixed patch): m[s:e:st] is the list of the cells
+    s, s+st, ... below min(e, 65536); m[s:e:st] = values stores value k at cell s + k*st (zip: as many as there are
+    addresses and values). The comprehension / loop is taken apart mechanically: the three range() arguments and the
+    element expression (the loop body) are evaluated as separate statements of the real function, with `a` (and `b`)
+    arbitrary; the list structure itself (one element per range member, in order) is Python semantics."""
+    import skoolkit.snapshot as S
+    W = poly.W
+    gnode, _ = func_ast(S.Memory.__getitem__)
+    comps = [n for n in ast.walk(gnode) if isinstance(n, ast.ListComp)]
+    snode, _ = func_ast(S.Memory.__setitem__)
+    loops = [n for n in ast.walk(snode) if isinstance(n, ast.For)]
+    name_g = 'skoolkit.snapshot.Memory.__getitem__[slice]'
+    name_s = 'skoolkit.snapshot.Memory.__setitem__[slice]'
+    if len(comps) != 1 or len(comps[0].generators) != 1 or comps[0].generators[0].ifs or len(loops) != 1:
+        rep.downgraded.append({'function': name_g, 'reason': 'the slice branch is no longer one list comprehension over a range / one for loop over zip(range, value)'})
+        return
+
+    def pieces(iter_node, what):
+        rng = iter_node
+        if what == 'set':
+            if not (isinstance(rng, ast.Call) and isinstance(rng.func, ast.Name) and rng.func.id == 'zip' and len(rng.args) == 2 and ast.unparse(rng.args[1]) == 'value'):
+                raise LookupError('setitem loop does not iterate over zip(range(...), value)')
+            rng = rng.args[0]
+        if not (isinstance(rng, ast.Call) and isinstance(rng.func, ast.Name) and rng.func.id == 'range' and 1 <= len(rng.args) <= 3 and not rng.keywords):
+            raise LookupError('not a range() call')
+        args = [ast.unparse(a) for a in rng.args]
+        if len(args) == 1:
+            args = ['0'] + args
+        if len(args) == 2:
+            args.append('1')
+        return args
+    try:
+        gargs = pieces(comps[0].generators[0].iter, 'get')
+        sargs = pieces(loops[0].iter, 'set')
+    except LookupError as ex:
+        rep.downgraded.append({'function': name_g, 'reason': str(ex)})
+        return
+    gtarget = ast.unparse(comps[0].generators[0].target)
+    starget = ast.unparse(loops[0].target)
+
+    def mk_mem(eng):
+        p = eng.path
+        heap = PhysHeap()
+        p.page = SV(z3.BitVec('page', W), 0, 7)
+        p.facts.append(z3.And(p.page.t >= 0, p.page.t <= 7))
+        m = ObjModel(None, name='Memory', cls=S.Memory)
+        m.attrs['banks'] = BankTuple(heap, 0, 8)
+        m.attrs['memory'] = SymList([BankRef(heap, 8), BankRef(heap, 5), BankRef(heap, 2), BankRef(heap, p.page)], 'memory')
+        p.heap, p.m = heap, m
+        p.s = SV(z3.BitVec('slice_start', W), 0, 65535)
+        p.e = SV(z3.BitVec('slice_stop', W), 0, 1 << 17)
+        p.facts.append(z3.And(p.s.t >= 0, p.s.t <= 65535, p.e.t >= 0, p.e.t <= (1 << 17)))
+        p.a = SV(z3.BitVec('a_any', W), 0, 65535)
+        p.facts.append(z3.And(p.a.t >= 0, p.a.t <= 65535))
+        return m
+
+    def cell_of(p, a):
+        q = a >> 14
+        bank = ite(q == 0, 8, ite(q == 1, 5, ite(q == 2, 2, p.page)))
+        return sv(bank * 0x4000 + (a & 0x3FFF))
+    for with_step in (False, True):
+        label = 'explicit step' if with_step else 'no step'
+
+        def start_g(eng, with_step=with_step):
+            p = eng.path
+            m = mk_mem(eng)
+            p.st = SV(z3.BitVec('slice_step', W), 1, 65535) if with_step else None
+            if with_step:
+                p.facts.append(z3.And(p.st.t >= 1, p.st.t <= 65535))
+            index = ObjModel(None, name='slice')
+            index.attrs.update({'start': p.s, 'stop': p.e, 'step': p.st})
+            src = 'r0 = %s\nr1 = %s\nr2 = %s\n%s = a_any\nel = %s' % (gargs[0], gargs[1], gargs[2], gtarget, ast.unparse(comps[0].elt))
+            p.locs = {'self': m, 'index': index, 'a_any': p.a}
+            eng.run_stmts(S.Memory.__getitem__, ast.parse(src).body, p.locs)
+
+        def post_g(p, prove, with_step=with_step):
+            L = p.locs
+            prove('post.range_start', cmpop('==', L['r0'], p.s))
+            prove('post.range_stop_is_min_of_stop_and_65536', cmpop('==', L['r1'], ite(cmpop('<', p.e, 0x10000), p.e, 0x10000)))
+            prove('post.range_step', cmpop('==', L['r2'], p.st if with_step else 1))
+            prove('post.element_is_the_cell_at_its_address', SB(sv(L['el']).t == z3.Select(p.heap.arr0, cell_of(p, p.a).t)))
+        FuncVC(rep, 'C09', S.Memory.__getitem__, '%s (%s)' % (name_g, label), Engine(inline_ok=inline_skoolkit)).run(start_g, post_g, replay_memory_slices)
+
+        def start_s(eng, with_step=with_step):
+            p = eng.path
+            m = mk_mem(eng)
+            p.st = SV(z3.BitVec('slice_step', W), 1, 65535) if with_step else None
+            if with_step:
+                p.facts.append(z3.And(p.st.t >= 1, p.st.t <= 65535))
+            index = ObjModel(None, name='slice')
+            index.attrs.update({'start': p.s, 'stop': p.e, 'step': p.st})
+            p.b = byte('b_any')
+            p.facts.append(z3.And(p.b.t >= 0, p.b.t <= 255))
+            src = 'r0 = %s\nr1 = %s\nr2 = %s\n%s = (a_any, b_any)\n' % (sargs[0], sargs[1], sargs[2], starget)
+            p.locs = {'self': m, 'index': index, 'a_any': p.a, 'b_any': p.b, 'value': None}
+            eng.run_stmts(S.Memory.__setitem__, ast.parse(src).body + list(loops[0].body), p.locs)
+
+        def post_s(p, prove, with_step=with_step):
+            L = p.locs
+            prove('post.range_start', cmpop('==', L['r0'], p.s))
+            prove('post.range_stop', cmpop('==', L['r1'], p.e))
+            prove('post.range_step', cmpop('==', L['r2'], p.st if with_step else 1))
+            prove('post.body_stores_the_value_at_its_address', SB(p.heap.arr == z3.Store(p.heap.arr0, cell_of(p, p.a).t, p.b.t)))
+        FuncVC(rep, 'C09', S.Memory.__setitem__, '%s (%s)' % (name_s, label), Engine(inline_ok=inline_skoolkit)).run(start_s, post_s, replay_memory_slices)
+    rep.assume('Memory slices: a list comprehension / for loop over range(s, e, st) visits s, s + st, ... below e in order, zip pairs them with the values in order (Python semantics); addresses are 0..65535 (a stop above 65536 in __setitem__ is outside the documented use)')
+
+
+def replay_memory_slices(vals, kind):
+    """Concrete search: slices of 48K and 128K Memory objects around the top of memory against a flat model."""
+    import skoolkit.snapshot as S
+    rnd = random.Random(17)
+    for t in range(400):
+        is128 = t % 2
+        if is128:
+            pg = rnd.choice((0, 1, 3, 4, 6, 7))      # (banks 5 and 2 at 0xC000 alias the lower slots: the VC's heap model covers that)
+            m = S.Memory(snapshot=[rnd.randrange(256) for _ in range(0x20000)], page=pg)
+            flat = [0] * 16384 + list(m.banks[5]) + list(m.banks[2]) + list(m.banks[pg])
+        else:
+            snap = [0] * 16384 + [rnd.randrange(256) for _ in range(49152)]
+            m = S.Memory(snapshot=snap)
+            flat = list(snap)
+        s_ = rnd.choice((rnd.randrange(16384, 65536), 65535, 65530, 49150, vals.get('slice_start', 65000) % 65536))
+        e_ = rnd.choice((s_, s_ + rnd.randrange(0, 40), 65535, 65536, 65537, 70000, vals.get('slice_stop', 65536)))
+        st_ = rnd.choice((None, None, 1, 2, 7))
+        got = m[s_:e_:st_] if st_ else m[s_:e_]
+        exp = [flat[a] for a in range(s_, min(e_, 65536), st_ or 1)]
+        if list(got) != exp:
+            return {'case': {'memory_slice': [s_, e_, st_], 'is128': bool(is128)}, 'diffs': [('Memory[%d:%d:%s]' % (s_, e_, st_), 'length %d' % len(got), 'length %d (cells %d..)' % (len(exp), s_))]}
+        vals_ = [rnd.randrange(256) for _ in range(rnd.randrange(0, 12))]
+        e2 = min(e_, 65536)
+        if st_:
+            m[s_:e2:st_] = vals_
+        else:
+            m[s_:e2] = vals_
+        for a, b in zip(range(s_, e2, st_ or 1), vals_):
+            flat[a] = b
+        now = [m[a] for a in range(16384, 65536)]
+        if now != flat[16384:]:
+            bad = [a for a in range(16384, 65536) if now[a - 16384] != flat[a]][:3]
+            return {'case': {'memory_slice': [s_, e2, st_], 'is128': bool(is128), 'values': vals_}, 'diffs': [('Memory[%d:%d:%s] = %d values' % (s_, e2, st_, len(vals_)), 'cells %s differ' % bad, 'exactly the zipped cells change')]}
+    return {'case': {}, 'diffs': []}
+
+
 def replay_tstates(fmt, mid):
     def rp(vals, kind):
         v = vals.get('v', 0)
@@ -700,6 +844,7 @@ def run(tier):
     check_rle_structure(rep)
     from props import pokevc
     pokevc.check_poke(rep, 'C09', tier)        # the cell-writing kernel of poke(): exactly the named cells, f(old) in each
+    check_memory_slices(rep)                   # Memory[s:e:st] reads / writes the cells s, s+st, ... below min(e, 65536)
     pokevc.check_patch(rep, 'C09')             # patch(): one store, as much of the file as fits, the bank keeps its length
     pokevc.check_move(rep, 'C09')              # move(): one block copy, between the banks / offsets the spec names
     quick = tier == 'quick'
@@ -741,6 +886,13 @@ def replay(path):
         doc = json.load(f)
     case = doc.get('case')
     print('replaying', doc.get('key'), case)
+    if isinstance(case, dict) and 'memory_slice' in case:
+        r = replay_memory_slices({'slice_start': case['memory_slice'][0], 'slice_stop': case['memory_slice'][1]}, '')
+        print(r['diffs'])
+        if r['diffs']:
+            print('VIOLATION property=C09 replay=%s' % path)
+            return 1
+        return 0
     if isinstance(case, dict) and 'patch_spec' in case:
         from props import pokevc
         r = pokevc.replay_patch({k: case[k] for k in ('page', 'address', 'file_length') if k in case}, '')
